@@ -2,7 +2,10 @@
 
 package sftp
 
-import "unsafe"
+import (
+	"reflect"
+	"unsafe"
+)
 
 // verifHook is installed by the verification harness (build tag "verif").
 // It is nil unless a harness sets it; every call site only observes.
@@ -11,6 +14,13 @@ var verifHook func(point string, a, b uint64)
 func vhook(point string, a, b uint64) {
 	if h := verifHook; h != nil {
 		h(point, a, b)
+	}
+}
+
+// vhookChan reports a result channel by its identity (the address of the channel object).
+func vhookChan(point string, sid uint32, ch any) {
+	if h := verifHook; h != nil {
+		h(point, uint64(sid), uint64(reflect.ValueOf(ch).Pointer()))
 	}
 }
 
